@@ -16,6 +16,93 @@ pub struct Scene {
     /// further starting points with a directory part in their spelling (a file and a directory
     /// below `outside`, `./plain`, an entry of `r0` named directly)
     pub extra: Vec<(Vec<u8>, String)>,
+    /// file systems mounted inside the scene (-xdev cases); unmounted when dropped
+    pub mounts: Vec<Mount>,
+}
+
+/// A tmpfs mounted on a directory of the scene for as long as the value lives.
+pub struct Mount(pub std::path::PathBuf);
+
+impl Mount {
+    /// `None` where mounting is not permitted (the -xdev cases are then left out)
+    pub fn new(dir: &Path) -> Option<Mount> {
+        use std::os::unix::ffi::OsStrExt;
+        let target = std::ffi::CString::new(dir.as_os_str().as_bytes()).ok()?;
+        let src = std::ffi::CString::new("none").unwrap();
+        let fs = std::ffi::CString::new("tmpfs").unwrap();
+        let data = std::ffi::CString::new("size=1m").unwrap();
+        let r = unsafe { libc::mount(src.as_ptr(), target.as_ptr(), fs.as_ptr(), 0, data.as_ptr() as *const libc::c_void) };
+        if r == 0 { Some(Mount(dir.to_path_buf())) } else { None }
+    }
+}
+
+impl Drop for Mount {
+    fn drop(&mut self) {
+        use std::os::unix::ffi::OsStrExt;
+        if let Ok(target) = std::ffi::CString::new(self.0.as_os_str().as_bytes()) {
+            unsafe { libc::umount2(target.as_ptr(), libc::MNT_DETACH) };
+        }
+    }
+}
+
+impl Scene {
+    /// unmounts what the scene mounted and removes it
+    pub fn remove(mut self) {
+        self.mounts.clear();
+        let _ = std::fs::remove_dir_all(&self.dir);
+    }
+}
+
+/// the real directories below `top` (not `top` itself), as paths
+fn real_dirs_below(top: &Path, out: &mut Vec<std::path::PathBuf>) {
+    if let Ok(rd) = std::fs::read_dir(top) {
+        let mut kids: Vec<std::path::PathBuf> = rd.flatten().map(|e| e.path()).collect();
+        kids.sort();
+        for k in kids {
+            if std::fs::symlink_metadata(&k).map(|m| m.is_dir()).unwrap_or(false) {
+                out.push(k.clone());
+                real_dirs_below(&k, out);
+            }
+        }
+    }
+}
+
+/// Mounts a small file system of its own on one or two directories below the trees (creating
+/// `r0/mnt` when there is none), fills them, and lets a link in `r1` point into the first one.
+/// Returns the mounts and the scene-relative spelling of the first mount point.
+fn mount_inside(rng: &mut Rng, dir: &Path, names: &[Vec<u8>]) -> (Vec<Mount>, Option<Vec<u8>>) {
+    use std::os::unix::ffi::OsStrExt;
+    let mut cands = vec![];
+    real_dirs_below(&dir.join("r0"), &mut cands);
+    real_dirs_below(&dir.join("r1"), &mut cands);
+    if cands.is_empty() || rng.chance(1, 4) {
+        let p = dir.join("r0").join("mnt");
+        if std::fs::create_dir(&p).is_ok() { cands.push(p); }
+    }
+    let mut mounts: Vec<Mount> = vec![];
+    let mut first = None;
+    let want = if rng.chance(1, 3) { 2 } else { 1 };
+    for _ in 0..want {
+        if cands.is_empty() { break; }
+        let target = cands.remove(rng.below(cands.len()));
+        // a directory hidden below an earlier mount point is gone
+        if !target.is_dir() || mounts.iter().any(|m| target.starts_with(&m.0)) { continue; }
+        match Mount::new(&target) {
+            None => return (mounts, first),
+            Some(m) => {
+                let p = GenParams { max_depth: 2, max_width: 3, links: false, names: names.to_vec() };
+                if let Spec::Dir(_, kids) = gen_tree(rng, &p, b"m", 1, &[]) {
+                    for k in kids { materialize(&target, &k); }
+                }
+                if first.is_none() {
+                    first = Some(target.strip_prefix(dir).unwrap().as_os_str().as_bytes().to_vec());
+                    let _ = std::os::unix::fs::symlink(&target, dir.join("r1").join("lm"));
+                }
+                mounts.push(m);
+            }
+        }
+    }
+    (mounts, first)
 }
 
 pub fn simple_names() -> Vec<Vec<u8>> {
@@ -24,6 +111,11 @@ pub fn simple_names() -> Vec<Vec<u8>> {
 
 /// builds a scene: two trees, an outside area reachable only through links, link roots, a missing root
 pub fn build_scene(ctx: &Ctx, rng: &mut Rng, names: Vec<Vec<u8>>, links: bool) -> Scene {
+    build_scene_m(ctx, rng, names, links, false)
+}
+
+/// `mounted`: some directories inside the trees are mount points of file systems of their own
+pub fn build_scene_m(ctx: &Ctx, rng: &mut Rng, names: Vec<Vec<u8>>, links: bool, mounted: bool) -> Scene {
     // two padding levels keep links to ".." / "../.." inside an area nothing else writes to
     let dir = ctx.scratch("scene").join("pad").join("w");
     std::fs::create_dir_all(&dir).unwrap();
@@ -53,8 +145,14 @@ pub fn build_scene(ctx: &Ctx, rng: &mut Rng, names: Vec<Vec<u8>>, links: bool) -
         materialize(&dir, &Spec::Link(b"lf".to_vec(), outside[2].clone()));
     }
     std::fs::write(dir.join("plain"), b"x").unwrap();
+    let (mounts, mount_point) = if mounted { mount_inside(rng, &dir, &names) } else { (vec![], None) };
+    let mount_point = mount_point.and_then(|m| String::from_utf8(m).ok());
     let mut roots = vec![];
     let mut cands: Vec<&str> = vec!["r0", "r1", "plain", "missing", "r0/", "./r1", "r0//", "r1/."];
+    if let Some(m) = &mount_point {
+        // (among the first four: the mount point itself as a starting point)
+        cands.insert(2, m.as_str());
+    }
     if links {
         cands.extend(["lr", "lo", "ldang", "lf", "lr/"]);
     }
@@ -81,7 +179,7 @@ pub fn build_scene(ctx: &Ctx, rng: &mut Rng, names: Vec<Vec<u8>>, links: bool) -
     }
     // names that are not valid UTF-8 exist in the trees but cannot be spelled in an argument vector
     let names: Vec<Vec<u8>> = names.into_iter().filter(|n| std::str::from_utf8(n).is_ok()).collect();
-    Scene { dir, roots, names, extra }
+    Scene { dir, roots, names, extra, mounts }
 }
 
 /// starting points for the -exec properties: also spellings with a trailing slash, a leading `./`
@@ -181,9 +279,16 @@ pub fn run_c03(ctx: &Ctx, sink: &mut Sink) {
         // -sorted orders siblings byte-wise: names that are not valid UTF-8 sort differently once decoded lossily
         let mut names = simple_names();
         names.extend([b"\xa3x".to_vec(), b"\xc2\xa3y".to_vec(), b"\xff".to_vec(), b"caf\xe9".to_vec(), b"caf\xc3\xa9".to_vec(), b"\xe6\x97".to_vec()]);
-        let sc = build_scene(ctx, &mut rng, names, si % 3 == 0);
+        // every fourth scene has file systems of its own mounted inside the trees (-xdev / -mount)
+        let sc = build_scene_m(ctx, &mut rng, names, si % 3 == 0, si % 4 == 1);
+        let mounted = !sc.mounts.is_empty();
         for _ci in 0..(if ctx.thorough { 16 } else { 8 }) {
             let mut toks: Vec<String> = vec![];
+            let xdev = mounted && rng.chance(3, 4);
+            let xdev_last = xdev && rng.chance(1, 2);
+            if xdev && !xdev_last {
+                toks.push((*rng.pick(&["xdev", "mount"])).into());
+            }
             if rng.chance(1, 3) {
                 depth_toks(&mut rng, &mut toks);
             }
@@ -249,10 +354,15 @@ pub fn run_c03(ctx: &Ctx, sink: &mut Sink) {
             if depth_last {
                 toks.push((*rng.pick(&["depth", "d"])).into());
             }
+            if xdev_last {
+                toks.push((*rng.pick(&["xdev", "mount"])).into());
+            }
             let flag = *rng.pick(&["P", "P", "H", "L"]);
             let roots = pick_roots(&mut rng, &sc, false);
             let (req, imp) = run_case(ctx, &sc.dir, flag, &roots, &toks, &mut rng, false);
             let mut tags = vec!["nt"];
+            if mounted { tags.push("mount-points-inside"); }
+            if xdev { tags.push("xdev"); }
             if depth { tags.push("depth"); }
             if depth_last { tags.push("depth-after-prune"); }
             if toks.iter().any(|t| t == "prune") { tags.push("prune"); }
@@ -260,7 +370,7 @@ pub fn run_c03(ctx: &Ctx, sink: &mut Sink) {
             if imp.contains("503a") { tags.push("prune-fired"); }
             sink.push(Case { req, imp, tags });
         }
-        let _ = std::fs::remove_dir_all(&sc.dir);
+        sc.remove();
     }
 }
 
